@@ -27,7 +27,7 @@ def cfg_str(cfg, tree=None, extra_strings=()):
         if tree is not None:
             all_strings(tree, names)
         names.add("")
-        pat = pyre.compile(cfg.re)
+        pat = go_re(cfg.re)
         zm = sorted(n for n in names if pat.search(n))
         s += ";zm=" + ":".join("x" + hx(n) for n in zm)
     return s
@@ -41,7 +41,7 @@ PRESETS = [
 
 def selective_cfgs(fields, rng):
     out = []
-    fs = [f for f in fields if "." not in f]
+    fs = [f for f in fields if pyre.fullmatch(r"[A-Za-z0-9_]+", f)]
     if fs:
         pick = [rng.choice(fs) for _ in range(1 + rng.below(2))]
         out.append(Cfg(re="^(" + "|".join(pick) + ")$"))
